@@ -166,7 +166,8 @@ prop(
 prop(
     id="C07",
     stages=C06_STAGES + [dict(name="c07runs", pkg="c07", test="TestC07Runs", access=[WORKERS_ACCESS, RUN_ACCESS], timeout_quick=300, timeout_thorough=3000),
-                         dict(name="c07late", pkg="c07", test="TestC07LateMark", access=[WORKERS_ACCESS, RUN_ACCESS], timeout_quick=300, timeout_thorough=3000)],
+                         dict(name="c07late", pkg="c07", test="TestC07LateMark", access=[WORKERS_ACCESS, RUN_ACCESS], timeout_quick=300, timeout_thorough=3000),
+                         dict(name="c07conc", pkg="c07", test="TestC07ConcurrentMarks", access=[WORKERS_ACCESS, RUN_ACCESS], timeout_quick=300, timeout_thorough=3000)],
     rule="(a) as C06 (a): per-iteration outcomes of generated bodies on one worker vs the model's classification, T.Failed() at body entry must be false; "
          "(b) whole runs in every trigger mode with per-iteration-id outcome plans (pass, each failure API, require assertion, panics with error/string/int/struct/runtime error): "
          "planned counts vs Result totals vs exported sample counts through the extracted predicate c01_ok; every fourth whole run has iterations that mark the scenario's own handle failed while others are in flight; non-trivial = body that fails or panics; distinct = distinct programs/plans",
@@ -191,7 +192,8 @@ prop(
             dict(name="c16runs", pkg="c16", test="TestC16Runs", access=[WORKERS_ACCESS, RUN_ACCESS], timeout_quick=300, timeout_thorough=3000),
             dict(name="c16conc", pkg="c16", test="TestC16Concurrent", access=[WORKERS_ACCESS, RUN_ACCESS], timeout_quick=300, timeout_thorough=3000),
             dict(name="c16push", pkg="c16", test="TestC16Push", access=[WORKERS_ACCESS, RUN_ACCESS], timeout_quick=300, timeout_thorough=3000),
-            dict(name="c16file", pkg="c16", test="TestC16File", access=[WORKERS_ACCESS, RUN_ACCESS], timeout_quick=300, timeout_thorough=3000)],
+            dict(name="c16file", pkg="c16", test="TestC16File", access=[WORKERS_ACCESS, RUN_ACCESS], timeout_quick=300, timeout_thorough=3000),
+            dict(name="c16global", pkg="c16", test="TestC16Global", access=[WORKERS_ACCESS, RUN_ACCESS], timeout_quick=300, timeout_thorough=3000)],
     rule="random static label maps (0-7 keys from a pool with colliding prefixes and case variants; values equal to other keys, empty, non-ASCII) on private registries; "
          "1-3 consecutive runs per instance with outcome mixes incl. drops and setup failures, (a) through the real ActiveScenario with the reset Run.Do performs, (b) through whole Run.Do runs, (c) 2-12 workers recording different outcomes at the same time on an instance with static labels; "
          "Registry.Gather() canonicalised to (family, name/value pairs sorted by name, sample count) and compared exactly with the model; after every whole run the exported iteration metric is compared with that run's final result (bodies with failing cleanups included); stage c16push: runs against an in-process push gateway answering promptly or after up to 1.5 s (runs of 5.1-5.9 s ending during a periodic push): what the gateway holds = the final result; stage c16file: config-file runs mixing users and rate stages in every order with bodies of 60-170 ms that outlive their stage (iterations in flight and requests pending when the last stage stops triggering): executed = final result = exported iteration metric, outcome by outcome; non-trivial = at least two static labels / file run of more than three iterations; distinct = distinct cases",
@@ -267,7 +269,8 @@ prop(
     id="C18",
     stages=[dict(name="c18", pkg="c18", test="TestC18", access=[], instrument=True,
                  drift=["internal/raterun::" + f for f in ["Runner.Restart", "Runner.Start", "Runner.Start.go", "Runner.Stop", "newSchedules", "schedules.start", "schedules.stop"]],
-                 timeout_quick=300, timeout_thorough=3000)],
+                 timeout_quick=300, timeout_thorough=3000),
+            dict(name="c18many", pkg="c18", test="TestC18Many", access=[], timeout_quick=300, timeout_thorough=3000)],
     rule="real raterun.Runner with 1-3 schedules (distinct frequencies 2-9ms, start delays 0-30ms), function durations 0-12ms, 0-2 Restarts at random instants, ending by Stop (75%) or by cancelling the context; "
          "in a third of the runs one invocation is held by the harness and Stop is called while it executes; the totally ordered event log (Start, FnStart k, FnEnd, Restart, StopCalled, StopReturned, Cancel) must be admissible "
          "for the extracted checker runner_trace_ok; harness-side: Stop must not return while the held invocation runs, goroutine-leak check after Stop/cancel, one-sided bound invocations <= elapsed/frequency + 2; extracted checker runner_times_ok: an invocation carrying schedule k's frequency never happens before Start + start delays up to k + one period of k (40% of the runs put a slow schedule behind a fast one with a function that overruns the fast ticks); "
